@@ -639,5 +639,6 @@ Apply(s0, c) ==
     [] c.op = "enable_fbu"     -> EnableFBU(s, c.f)
     [] c.op = "clear"          -> Clear(s, c.f)
     [] c.op = "status_gc"      -> StatusGC(s, MarksOf(c.l), c.f)
+    [] c.op \in {"stamp", "more_props"} -> [s EXCEPT !.ret = Void]   \* executor bookkeeping: the mesh is untouched
 
 =============================================================================
